@@ -134,6 +134,89 @@ pub fn set_ioctl_handler(h: Option<IoctlHandler>) {
     IOCTL_HANDLER.with(|c| *c.borrow_mut() = h);
 }
 
+/// Address ranges [start, end) that are still mapped after replaying `log` on an empty address
+/// space (page granularity; a munmap may release part of a mapping or several at once).
+pub fn net_mapped(log: &[MapEvent]) -> Vec<(usize, usize)> {
+    let pg = |x: usize| (x + 4095) / 4096 * 4096;
+    let mut space: Vec<(usize, usize)> = Vec::new();
+    let cut = |space: &mut Vec<(usize, usize)>, a: usize, b: usize| {
+        let mut out = Vec::with_capacity(space.len() + 1);
+        for &(s, e) in space.iter() {
+            if e <= a || b <= s {
+                out.push((s, e));
+            } else {
+                if s < a {
+                    out.push((s, a));
+                }
+                if b < e {
+                    out.push((b, e));
+                }
+            }
+        }
+        *space = out;
+    };
+    for e in log {
+        match e {
+            MapEvent::Map { addr, len, ok: true, .. } => {
+                cut(&mut space, *addr, pg(*addr + *len));
+                space.push((*addr, pg(*addr + *len)));
+            }
+            MapEvent::Unmap { addr, len, ret: 0 } => cut(&mut space, *addr, pg(*addr + *len)),
+            _ => {}
+        }
+    }
+    space
+}
+
+/// Answer of a scripted lseek: forward, fail with an errno, or report this position / length.
+pub enum SeekAnswer {
+    Pass,
+    Err(i32),
+    Ret(i64),
+}
+type SeekHandler = Box<dyn FnMut(i32, i64, i32) -> SeekAnswer>;
+thread_local! {
+    static SEEK_ACTIVE: Cell<bool> = const { Cell::new(false) };
+    static SEEK_HANDLER: RefCell<Option<SeekHandler>> = const { RefCell::new(None) };
+}
+
+/// Runs `f` with every lseek of the calling thread answered by `h` (fd, offset, whence).
+pub fn with_seek_handler<R>(h: SeekHandler, f: impl FnOnce() -> R) -> R {
+    SEEK_HANDLER.with(|c| *c.borrow_mut() = Some(h));
+    SEEK_ACTIVE.with(|c| c.set(true));
+    let r = f();
+    SEEK_ACTIVE.with(|c| c.set(false));
+    SEEK_HANDLER.with(|c| *c.borrow_mut() = None);
+    r
+}
+
+#[no_mangle]
+pub unsafe extern "C" fn lseek64(fd: c_int, offset: i64, whence: c_int) -> i64 {
+    if SEEK_ACTIVE.try_with(|c| c.get()).unwrap_or(false) {
+        let ans = SEEK_HANDLER
+            .try_with(|h| match h.try_borrow_mut() {
+                Ok(mut g) => g.as_mut().map(|f| f(fd, offset, whence)),
+                Err(_) => None,
+            })
+            .ok()
+            .flatten();
+        match ans {
+            Some(SeekAnswer::Err(e)) => {
+                set_errno(e);
+                return -1;
+            }
+            Some(SeekAnswer::Ret(v)) => return v,
+            _ => {}
+        }
+    }
+    libc::syscall(libc::SYS_lseek, fd as c_long, offset, whence as c_long) as i64
+}
+
+#[no_mangle]
+pub unsafe extern "C" fn lseek(fd: c_int, offset: off_t, whence: c_int) -> off_t {
+    lseek64(fd, offset as i64, whence) as off_t
+}
+
 pub fn set_mmap_xlate(h: Option<MmapXlate>) {
     XLATE_ACTIVE.with(|c| c.set(h.is_some()));
     MMAP_XLATE.with(|c| *c.borrow_mut() = h);
@@ -330,6 +413,25 @@ pub unsafe extern "C" fn write(fd: c_int, buf: *const c_void, count: size_t) -> 
         return r;
     }
     libc::syscall(libc::SYS_write, fd as c_long, buf, count) as ssize_t
+}
+
+/// Self-test of the lseek hook (used by the checks that inject seek faults).
+pub fn selftest_seek() -> Result<(), String> {
+    use std::io::{Seek, SeekFrom};
+    let mut f = crate::layouts::tempfile().map_err(|e| e.to_string())?;
+    f.set_len(100).map_err(|e| e.to_string())?;
+    let n = std::cell::Cell::new(0);
+    let r = with_seek_handler(
+        Box::new(|_, _, _| SeekAnswer::Ret(7)),
+        || {
+            n.set(n.get() + 1);
+            f.seek(SeekFrom::End(0))
+        },
+    );
+    match r {
+        Ok(7) => Ok(()),
+        other => Err(format!("lseek is not intercepted in this binary (std returned {:?})", other)),
+    }
 }
 
 /// Self-test: verifies that the five symbols really are intercepted in this binary.
